@@ -52,7 +52,7 @@ ParseClauses(T) ==
      ELSE IF "nan" \in r.fl THEN {"SKIP:nan"}
      ELSE
        (IF LayoutObs(T.type, T.mode) = T.obs.layout THEN {} ELSE {"layout"})
-       \cup (IF r.ok THEN (IF o.status = "ok" \/ (lax /\ o.status = "eof") THEN {} ELSE {"status"})
+       \cup (IF r.ok THEN (IF o.status = "ok" \/ (lax /\ o.status = "eof") \/ ("laxdecode" \in r.fl /\ o.status = "decode") THEN {} ELSE {"status"})
              ELSE (IF ErrMatches(o.status, r.err) THEN {} ELSE {"status"}))
        \cup (IF bothok /\ o.v # r.v THEN {"value"} ELSE {})
        \cup (IF strict /\ o.pos # r.pos THEN {"pos"} ELSE {})
